@@ -127,6 +127,22 @@ func (s *Sim) execBlock(op Op) {
 	if dt > 600 {
 		s.Stats.Fault("clock_jump")
 	}
+	if op.Sim != 0 {
+		// clients estimate gas by simulating on the node before they broadcast: the simulated execution
+		// runs the real message handlers on a discarded branch of the committed state
+		for i, t := range txs {
+			if op.Sim&(1<<(uint(i)%64)) != 0 {
+				_, err := s.N.Simulate(t.Signer, t.Gas, t.Msgs...)
+				s.Stats.Fault("simulated_tx_discarded")
+				if err == nil {
+					s.Stats.Probe("simulated_tx_ran_ok")
+				}
+			}
+		}
+		if s.ModeB != nil {
+			s.ModeB.Reset(nil)
+		}
+	}
 	inject := false
 	if s.ModeB != nil && op.Inject != "" && len(txs) == 1 {
 		if m, ok := txs[0].Meta.(*txMeta); ok && m.Kind == "recv" && len(m.Pkts) == 1 && m.Pkts[0].State == PktInFlight {
